@@ -110,6 +110,8 @@ func main() {
 		cmdFault(os.Args[2:])
 	case "iter":
 		cmdIter(os.Args[2:])
+	case "conc":
+		cmdConc(os.Args[2:])
 	default:
 		fmt.Fprintf(os.Stderr, "unknown command %q\n", os.Args[1])
 		os.Exit(2)
